@@ -2,7 +2,7 @@
   Soundness of the enclosure oracle, part 7: `Spec.trueValue .expm1`.
 
   `trueValue_expm1_sound` : 0 < c < 10^35 → trueValue .expm1 n c e = some (tn, t) →
-        ∃ T, T ∈ₛ t ∧ Real.exp X − 1 = (if tn then −T else T)           (X = (-1)^n·c·10^e)
+        ∃ T, 0 < T ∧ T ∈ₛ t ∧ Real.exp X − 1 = (if tn then −T else T)           (X = (-1)^n·c·10^e)
   covering the five branches: |X| < 10^-40 (relative enclosure c·(1 ± 10^-39)·10^e), X ≤ −100, X ≥ 100,
   and the general `Encl.expm1` branch with either sign.
 -/
@@ -66,7 +66,7 @@ theorem sciMem_rel {T u : ℝ} {c : Nat} {e : Int} (hu : (10 : ℝ) ^ (-39 : Int
 
 theorem trueValue_expm1_sound (n : Bool) (c : Nat) (e : Int) (tn : Bool) (t : Sci)
     (hc0 : c ≠ 0) (hc : c < 10 ^ 35) (h : trueValue .expm1 n c e = some (tn, t)) :
-    ∃ T : ℝ, T ∈ₛ t ∧ Real.exp (X n c e) - 1 = if tn then -T else T := by
+    ∃ T : ℝ, 0 < T ∧ T ∈ₛ t ∧ Real.exp (X n c e) - 1 = if tn then -T else T := by
   rw [trueValue_expm1_eq] at h
   simp only at h
   have hnd := ndigits_le_35 hc0 hc
@@ -76,6 +76,13 @@ theorem trueValue_expm1_sound (n : Bool) (c : Nat) (e : Int) (tn : Bool) (t : Sc
   have hXlt := abs_X_lt n hc0 e
   have hXge := abs_X_ge n hc0 e
   rw [hXabs] at hXlt hXge
+  have hApos : (0 : ℝ) < (c : ℝ) * (10 : ℝ) ^ e := by
+    have : (0 : ℝ) < (c : ℝ) := by exact_mod_cast Nat.pos_of_ne_zero hc0
+    positivity
+  have hexp1 : 0 < Real.exp ((c : ℝ) * (10 : ℝ) ^ e) - 1 := by
+    have := Real.add_one_lt_exp hApos.ne'; linarith
+  have hexp2 : 0 < 1 - Real.exp (-((c : ℝ) * (10 : ℝ) ^ e)) := by
+    have := Real.exp_lt_one_iff.2 (by linarith : -((c : ℝ) * (10 : ℝ) ^ e) < 0); linarith
   split at h
   · exact absurd h (by simp)
   rename_i h7
@@ -92,11 +99,13 @@ theorem trueValue_expm1_sound (n : Bool) (c : Nat) (e : Int) (tn : Bool) (t : Sc
     cases n
     · -- positive operand
       obtain ⟨b1, b2⟩ := expm1_tiny_pos hA0 hAu hu1
-      refine ⟨Real.exp (X false c e) - 1, ?_, by simp⟩
+      refine ⟨Real.exp (X false c e) - 1, ?_, ?_, by simp⟩
+      · rw [X_eq]; simpa using hexp1
       rw [X_eq]; simp only [Bool.false_eq_true, if_false]
       apply sciMem_rel hu <;> nlinarith
     · obtain ⟨b1, b2⟩ := expm1_tiny_neg hA0 hAu hu1
-      refine ⟨1 - Real.exp (X true c e), ?_, by simp⟩
+      refine ⟨1 - Real.exp (X true c e), ?_, ?_, by simp⟩
+      · rw [X_eq]; simpa using hexp2
       rw [X_eq]; simp only [if_true]
       apply sciMem_rel hu <;> nlinarith
   rename_i h40
@@ -114,7 +123,8 @@ theorem trueValue_expm1_sound (n : Bool) (c : Nat) (e : Int) (tn : Bool) (t : Sc
       linarith
     have hb := exp_neg_le_of_ge_100 hA
     have hpos := Real.exp_pos (-((c : ℝ) * (10 : ℝ) ^ e))
-    refine ⟨1 - Real.exp (X true c e), ?_, by simp⟩
+    refine ⟨1 - Real.exp (X true c e), ?_, ?_, by simp⟩
+    · rw [X_eq]; simpa using hexp2
     rw [X_eq]; simp only [if_true]
     rw [sciMem_mk]
     refine ⟨1 - Real.exp (-((c : ℝ) * (10 : ℝ) ^ e)), ?_, by simp⟩
@@ -148,7 +158,8 @@ theorem trueValue_expm1_sound (n : Bool) (c : Nat) (e : Int) (tn : Bool) (t : Sc
       have : 0 < z * (10 : ℝ) ^ (Encl.exp (Val.fin false c e).toRat).k := by
         rw [← hzT]; exact Real.exp_pos _
       exact (mul_pos_iff_of_pos_right hk).1 this
-    refine ⟨Real.exp (X false c e) - 1, ?_, by simp⟩
+    refine ⟨Real.exp (X false c e) - 1, ?_, ?_, by simp⟩
+    · rw [hXv]; exact hexp1
     rw [sciMem_mk]
     refine ⟨z * (1 - δ), ?_, ?_⟩
     · rw [mem_mk, Rat.cast_mul, Rat.cast_sub, pow10_cast]
@@ -187,13 +198,17 @@ theorem trueValue_expm1_sound (n : Bool) (c : Nat) (e : Int) (tn : Bool) (t : Sc
     (le_trans (abs_toRat_le_of n hc0 e 2 (by omega)) (by norm_num))
   change (Real.exp (X n c e) - 1) ∈ᵢ _ at hs
   split at h
-  · simp only [Option.some.injEq, Prod.mk.injEq] at h
+  · rename_i hvpos
+    simp only [Option.some.injEq, Prod.mk.injEq] at h
     obtain ⟨rfl, rfl⟩ := h
-    exact ⟨Real.exp (X n c e) - 1, ⟨_, hs, by simp⟩, by simp⟩
+    have : (0 : ℝ) < ((Encl.expm1 (Val.fin n c e).toRat).lo : ℝ) := by exact_mod_cast hvpos
+    exact ⟨Real.exp (X n c e) - 1, lt_of_lt_of_le this hs.1, ⟨_, hs, by simp⟩, by simp⟩
   · split at h
-    · simp only [Option.some.injEq, Prod.mk.injEq] at h
+    · rename_i hvneg
+      simp only [Option.some.injEq, Prod.mk.injEq] at h
       obtain ⟨rfl, rfl⟩ := h
-      exact ⟨-(Real.exp (X n c e) - 1), ⟨_, mem_neg hs, by simp⟩, by simp⟩
+      have : ((Encl.expm1 (Val.fin n c e).toRat).hi : ℝ) < 0 := by exact_mod_cast hvneg
+      exact ⟨-(Real.exp (X n c e) - 1), by linarith [hs.2], ⟨_, mem_neg hs, by simp⟩, by simp⟩
     · exact absurd h (by simp)
 
 end EnclPf
